@@ -380,6 +380,53 @@ dark_common = dict(
     phase_cut=st.one_of(st.floats(0.0, math.pi), st.sampled_from([math.radians(150.0), math.radians(150.0), math.pi])),
 )
 
+def _harvested_cases(tier):
+    import os
+
+    from ..strategies import harvested_edge_sizes
+
+    seed = int(os.environ.get("VERIF_SEED", "1") or "1")
+    for n in harvested_edge_sizes(["simulation/geometry/region_geometry.py", "simulation/geometry/too.py"], cap=700_000 if tier == "quick" else 2_100_000, lo=4000):
+        yield {
+            "ra": 1.0 + 0.1 * (seed % 17), "dec": -0.3, "date": f"20{10 + seed % 20:02d}-03-{1 + (seed * 7) % 27:02d}T06:00:00", "T": 86400.0 * (1 + seed % 3), "n": int(n),
+            "lat": 0.4 - 0.05 * (seed % 9), "lon": 2.0, "alt": 525.0, "afl_frac": 0.3, "sun_cut": math.radians(-6.0), "moon_cut": math.radians(5.0), "phase_cut": math.radians(150.0), "aim": None,
+        }
+
+
+def body_harvested(case):
+    """N = c, c+1, 2c, 2c+1 instants for every integer constant c >= 4000 that the geometry sources mention (a block
+    length, if they have one): the kept flag, emergence angle and path length of the first, last and 60 spread
+    instants of the whole-grid throw equal those of a throw of just these instants on a fresh object."""
+    from nuspacesim.simulation.geometry.region_geometry import RegionGeomToO
+
+    N = case["n"]
+    conf = _config(case)
+    with quiet():
+        with cut(f"RegionGeomToO.throw({N})"):
+            g = RegionGeomToO(conf)
+            g.throw(N)
+        hm = np.asarray(g.horizon_mask)
+        keep = np.zeros(N, dtype=bool)
+        keep[np.where(hm)[0][np.asarray(g.volume_mask)]] = True
+        beta = np.full(N, np.nan)
+        beta[keep] = np.asarray(g.beta_rad())
+        require(len(g.times) == N, f"{len(g.times)} instants for N = {N}")
+        pick = np.unique(np.concatenate([[0, 1, 2, N - 3, N - 2, N - 1], np.linspace(0, N - 1, 60).astype(int), np.where(keep)[0][-3:], np.where(keep)[0][:3]]).astype(int))
+        with cut(f"RegionGeomToO.throw({len(pick)} of the {N} instants, explicit)"):
+            h = RegionGeomToO(conf)
+            h.throw(pick / N)
+        hm2 = np.asarray(h.horizon_mask)
+        keep2 = np.zeros(len(pick), dtype=bool)
+        keep2[np.where(hm2)[0][np.asarray(h.volume_mask)]] = True
+        beta2 = np.full(len(pick), np.nan)
+        beta2[keep2] = np.asarray(h.beta_rad())
+    bad = np.where(keep[pick] != keep2)[0]
+    require(bad.size == 0, f"instant {int(pick[bad[0]]) if bad.size else -1} of a {N}-instant throw is {'kept' if bad.size and keep[pick][bad[0]] else 'dropped'}; thrown among {len(pick)} explicit instants it is not (a block of the {N} instants is skipped or mis-indexed)")
+    both = keep2
+    require(bool(np.all(np.abs(beta[pick][both] - beta2[both]) <= 1e-9)), f"emergence angles of the same instants differ between the {N}-instant throw and the explicit throw")
+    return {f"N={N}"}
+
+
 OTHER_ENVS = [
     {"TZ": "Asia/Kolkata"},
     {"TZ": "America/St_Johns", "LC_ALL": "C", "LANG": "C", "PYTHONUTF8": "0", "PYTHONCOERCECLOCALE": "0"},
@@ -425,6 +472,15 @@ SUBCHECKS = [
         doc="boolean formula on topocentric Sun/Moon altitudes and vector phase angle; array == per-instant; monotone in thresholds",
         tolerances={"angle_band_deg": 0.02},
         shrink=False,
+    ),
+    SubCheck(
+        "harvested_block_sizes",
+        None,
+        body_harvested,
+        lambda labels: True,
+        {"quick": 1},
+        doc="whole-grid throws of N = c, c+1, 2c, 2c+1 instants for every integer constant c >= 4000 found in the geometry sources (none on the pinned tree: no cases), sampled instants vs an explicit throw of just those instants",
+        exhaustive=_harvested_cases,
     ),
     SubCheck(
         "dark_sky_block_sizes",
